@@ -765,14 +765,34 @@ def gen_c20(rng, tier, index):
                     '#include nested_%d.lua' % t)
                 tg['nested'] = rng.choice(['missing', 'exists', 'canary'])
         targets.append(tg)
+    if rng.random() < 0.12:
+        # the cart names itself (included carts are not expanded, so this is
+        # no cycle: its own code, or one of its tabs, is spliced in as written)
+        targets.append({'kind': 'self', 'rel': 'cart.p8'})
     nlines = rng.choice([0, 1, 2, 3, 5])
     lines = [{'t': 'code', 'text': x} for x in mk_lines('c', nlines)]
+    if rng.random() < 0.2:
+        # lines that merely look like the start or end of a block comment
+        # (each is a complete statement or comment of its own)
+        for _ in range(rng.choice([1, 1, 2])):
+            uid[0] += 1
+            lines.insert(rng.randint(0, len(lines)), {
+                't': 'code', 'text': rng.choice([
+                    'q_%d="--[["', '-- note %d --[[ not a block comment',
+                    'q_%d="]]"', 'q_%d=[==[--[[]==]',
+                    '--[[ one line %d ]]', 'q_%d=q--[[ inline ]]']) % uid[0]})
+    if targets and targets[-1]['kind'] == 'self':
+        for _ in range(rng.choice([0, 1, 2])):
+            lines.insert(rng.randint(0, len(lines)),
+                         {'t': 'code', 'text': '-->8'})
     ninc = rng.choice([0, 1, 1, 2, 3, 4]) if targets else 0
     for _ in range(ninc):
         ti = rng.randrange(len(targets))
         tg = targets[ti]
         tab = None
-        if tg['kind'] != 'lua' and rng.random() < 0.6:
+        if tg['kind'] == 'self':
+            tab = rng.choice([None, 0, 1, 1, 2, 3])
+        elif tg['kind'] != 'lua' and rng.random() < 0.6:
             tab = rng.randint(0, len(tg['tabs']) + 1)
         inc = {'t': 'inc', 'target': ti, 'tab': tab,
                'indent': rng.choice(['', '', ' ', '\t', '  ']),
@@ -791,7 +811,12 @@ def gen_c20(rng, tier, index):
           'enoent': None}
     incs = [i for i, ln in enumerate(lines) if ln['t'] == 'inc']
     if incs and rng.random() < 0.2:
-        sc['enoent'] = lines[rng.choice(incs)]['target']
+        t_ = lines[rng.choice(incs)]['target']
+        if targets[t_]['kind'] != 'self':
+            sc['enoent'] = t_
+            # next to the missing target: a file whose name differs only by
+            # letter case (file names here are case sensitive)
+            sc['enoent_decoy'] = rng.choice([None, 'case', 'case'])
     if incs and rng.random() < 0.2:
         sc['prelude'] = rng.choice(['corrupt-header', 'lex-error',
                                     'parse-error', 'relative-elsewhere',
@@ -808,7 +833,9 @@ def gen_c20(rng, tier, index):
         t2 = []
         for t, tg in enumerate(targets):
             n = dict(tg)
-            if tg['kind'] == 'lua':
+            if tg['kind'] == 'self':
+                pass
+            elif tg['kind'] == 'lua':
                 n['lines'] = mk_lines('u%d' % t, rng.choice([0, 1, 2, 3]))
                 n['final_newline'] = True
             else:
@@ -827,7 +854,55 @@ def gen_c20(rng, tier, index):
                         targets[ln['target']]['kind'] != 'lua':
                     ln['tab'] = rng.choice([None, 0, 1, 2])
             sc['second']['lines'] = l2
+    if len(lines) >= 1 and rng.random() < 0.15 and not any(
+            tg['kind'] == 'self' for tg in targets):
+        # a stretch of the cart's lines (include lines too) sits inside a
+        # block comment: the splice is textual, the lines arrive all the same
+        i = rng.randint(0, len(lines) - 1)
+        j = rng.randint(i, len(lines) - 1)
+        if not any(ln['t'] == 'code' and ln['text'] == '-->8'
+                   for ln in lines[i:j + 1]):
+            uid[0] += 1
+            lvl = rng.choice(['', '', '='])
+            if any(ln['t'] == 'code' and ']]' in ln['text'] for ln in lines):
+                lvl = '='       # (a `]]` inside would end a level-0 comment)
+            for holder in [sc] + ([sc['second']] if 'lines' in sc.get(
+                    'second', {}) else []):
+                ls = holder['lines']
+                holder['lines'] = ls[:i] + [{
+                    't': 'cblock', 'id': uid[0], 'level': lvl,
+                    'inner': ls[i:j + 1]}] + ls[j + 1:]
     return sc
+
+
+def _flat_lines(lines):
+    """Block-comment brackets written out as the two code lines they are."""
+    out = []
+    for ln in lines:
+        if ln['t'] == 'cblock':
+            out.append({'t': 'code', 'text': '--[%s[ commented out %d' % (
+                ln.get('level', ''), ln['id'])})
+            out.extend(_flat_lines(ln['inner']))
+            out.append({'t': 'code', 'text': 'end_of_comment_%d ]%s]' % (
+                ln['id'], ln.get('level', ''))})
+        else:
+            out.append(ln)
+    return out
+
+
+def _cart_text_lines(sc):
+    """The cart's own code lines as they are written to the file."""
+    text_lines = []
+    for ln in sc['lines']:
+        if ln['t'] == 'code':
+            text_lines.append(ln['text'])
+        else:
+            tg = sc['targets'][ln['target']]
+            name = ('./' if ln.get('dot') else '') + tg['rel']
+            text_lines.append('%s#include%s%s%s' % (
+                ln['indent'], ln['gap'], name,
+                '' if ln['tab'] is None else ':%d' % ln['tab']))
+    return text_lines
 
 
 def _target_code(tg):
@@ -855,7 +930,20 @@ def _splice_model(sc):
             pieces.append((ln['text'], True))
             continue
         tg = sc['targets'][ln['target']]
-        if tg['kind'] == 'lua':
+        if tg['kind'] == 'self':
+            raw = _cart_text_lines(sc)
+            if ln['tab'] is None:
+                inc = raw
+            else:
+                tabs = [[]]
+                for x in raw:
+                    if x.startswith('-->8'):
+                        tabs.append([])
+                    else:
+                        tabs[-1].append(x)
+                inc = tabs[ln['tab']] if ln['tab'] < len(tabs) else []
+            pieces.extend((x, True) for x in inc)
+        elif tg['kind'] == 'lua':
             inc = list(tg['lines'])
             for i, x in enumerate(inc):
                 last = i == len(inc) - 1
@@ -895,10 +983,12 @@ def execute_splice(sc):
     with world.World(env={'HOME': '$ROOT/home'}) as w:
         if sc.get('prelude'):
             _prelude_failed_load(w, sc, res)
+        sc = dict(sc, lines=_flat_lines(sc['lines']))
         views = [sc]
         if sc.get('second'):
             views.append(dict(sc, targets=sc['second']['targets'],
-                              lines=sc['second'].get('lines', sc['lines']),
+                              lines=_flat_lines(sc['second'].get(
+                                  'lines', sc['lines'])),
                               enoent=None))
         for rno, view in enumerate(views):
             _splice_round(w, view, res, rno)
@@ -930,12 +1020,15 @@ def _prelude_failed_load(w, sc, res):
         other = 'work/other'
         for tg in sc['targets']:
             rel = other + '/' + tg['rel']
+            if tg['kind'] == 'self':
+                continue
             if tg['kind'] == 'lua':
                 w.put(rel, b'other_project=1\n')
             else:
                 w.put(rel, refcodec.encode_any(rel, refcodec.make_cart(
                     code=b'other_project=1\n-->8\nother_tab1=1\n')))
-        incs = ['#include ' + tg['rel'] for tg in sc['targets']]
+        incs = ['#include ' + tg['rel'] for tg in sc['targets']
+                if tg['kind'] != 'self']
         w.put(other + '/cart.p8', _p8_with_code(
             ('\n'.join(['other_main=1'] + incs) + '\n').encode()))
         cwd0 = os.getcwd()
@@ -982,6 +1075,8 @@ def _splice_round(w, sc, res, rno):
             base = CARTS_DIRS['carts-linux'] + '/game'
             for tg in sc['targets']:
                 top = CARTS_DIRS['carts-linux'] + '/' + tg['rel']
+                if tg['kind'] == 'self':
+                    continue
                 if tg['kind'] == 'lua':
                     w.put(top, b'decoy_top=1\n')
                 else:
@@ -998,6 +1093,8 @@ def _splice_round(w, sc, res, rno):
         never_open = []
         for ti, tg in enumerate(sc['targets']):
             rel = base + '/' + tg['rel']
+            if tg['kind'] == 'self':
+                continue
             code = _target_code(tg)
             if tg['kind'] == 'lua':
                 data = code
@@ -1007,22 +1104,22 @@ def _splice_round(w, sc, res, rno):
                 data = refcodec.encode_any(rel, cart)
             if sc.get('enoent') != ti:
                 w.put(rel, data)
+            elif sc.get('enoent_decoy') == 'case':
+                d_, b_ = os.path.split(rel)
+                for alt in (b_.upper(), b_.capitalize()):
+                    if alt != b_:
+                        w.put(os.path.join(d_, alt), data)
+                core.bump(res['probes'], 'missing-target-has-case-variant')
             if tg.get('nested'):
                 nrel = os.path.dirname(rel) + '/nested_%d.lua' % ti
                 if tg['nested'] in ('exists', 'canary'):
                     w.put(nrel, b'canary_nested_%d=1\n' % ti)
                 never_open.append(nrel)
-        text_lines = []
+        text_lines = _cart_text_lines(sc)
         for ln in sc['lines']:
-            if ln['t'] == 'code':
-                text_lines.append(ln['text'])
-            else:
-                tg = sc['targets'][ln['target']]
-                name = ('./' if ln.get('dot') else '') + tg['rel']
-                text_lines.append('%s#include%s%s%s' % (
-                    ln['indent'], ln['gap'], name,
-                    '' if ln['tab'] is None else ':%d' % ln['tab']))
-                expect_open.append(base + '/' + tg['rel'])
+            if ln['t'] == 'inc':
+                expect_open.append(base + '/' + sc['targets'][
+                    ln['target']]['rel'])
         code = ('\n'.join(text_lines) + '\n').encode() if text_lines else b''
         cart_rel = base + '/cart.p8'
         w.put(cart_rel, _p8_with_code(code))
@@ -1188,7 +1285,8 @@ def _splice_round(w, sc, res, rno):
         if n_inc > 1:
             core.bump(res['probes'], 'multiple-include-lines')
         if any(ln['t'] == 'inc' and ln['tab'] is not None and
-               ln['tab'] >= len(sc['targets'][ln['target']]['tabs'])
+               ln['tab'] >= len(sc['targets'][ln['target']].get(
+                   'tabs', [0] * 99))
                for ln in sc['lines']):
             core.bump(res['probes'], 'tab-selector-past-last-tab')
         if sc['lines'] and sc['lines'][0]['t'] == 'inc':
@@ -1252,7 +1350,11 @@ def shrink(sc):
                         tabs = tg['tabs'][:k] + [c] + tg['tabs'][k + 1:]
                         yield dict(sc, targets=sc['targets'][:ti] + [
                             dict(tg, tabs=tabs)] + sc['targets'][ti + 1:])
-        for k in ('prelude', 'via_symlink', 'second', 'layout'):
+        for i, ln in enumerate(lines):
+            if ln['t'] == 'cblock':
+                yield dict(sc, lines=lines[:i] + ln['inner'] + lines[i + 1:])
+        for k in ('prelude', 'via_symlink', 'second', 'layout',
+                  'enoent_decoy'):
             if sc.get(k):
                 yield {kk: v for kk, v in sc.items() if kk != k}
         if sc['route'] != 'from_file':
